@@ -369,6 +369,12 @@ var dischargedPanics = map[string]string{
 	"compiler.makeInstruction":     "operand-count assertion: unreachable because every emit site passes exactly OperandCount operands (C01-R1)",
 	"(*lexer.Lexer).GetLineText":   "range assertions on a token's start position: tokens handed to it come from the same lexer over the same input (defensive assertion)",
 	"object.NewBuiltin":            "assertion on the optional trailing module argument: every call site in the repository passes at most one (checked below)",
+	"(*object.Module).UseGlobals":  "assertion that the globals array handed over has the length of the module's own code: its only callers pass that code's array (defensive assertion)",
+	"object.NewModule":             "assertion on the type of a compiled constant used as a module global: the compiler only produces the listed constant types (C17-R2)",
+	"(*object.Set).Keys":           "items of a set were hashable when they were added (Add refuses others), so the assertion cannot fail (defensive assertion)",
+	"object.NewThread":             "assertion that a callable was given: both callers pass a checked callable (defensive assertion)",
+	"(*vm.VirtualMachine).reloadCode": "assertion that the main code is loaded: called only on the branch that found it in loadedCode (defensive assertion)",
+	"vm.wrapCode":                  "default clause over the constant types: the compiler, the marshaller and this switch agree on the list (C17-R2)",
 	"vm.New":                       "panics only when a host-supplied global cannot be converted; C03 quantifies over scripts run with the default globals, which always convert (the host-value case is reported under C08)",
 }
 
